@@ -271,13 +271,14 @@ def apply_pose(col, T, rng, mode=None):
     return mode
 
 
-def build(spec):
-    """library collider from a spec (fresh arrays)."""
+def build(spec, copy=True):
+    """library collider from a spec (fresh arrays; copy=False hands the spec's own float64 arrays to the constructor,
+    the way a caller does who keeps using his arrays afterwards)."""
     from distance3d import colliders as C
     k = spec["kind"]
-    f = lambda a: np.array(a, dtype=float, order="C")  # noqa: E731
+    f = (lambda a: np.array(a, dtype=float, order="C")) if copy else (lambda a: a)  # noqa: E731
     if k == "margin":
-        return C.Margin(build(spec["base"]), float(spec["m"]))
+        return C.Margin(build(spec["base"], copy), float(spec["m"]))
     if k == "sphere":
         return C.Sphere(f(spec["c"]), float(spec["r"]))
     if k == "ellipsoid":
